@@ -405,11 +405,9 @@ func H_C05_unmarshal_iface(t *verifrt.T) {
 	accepted := err == nil
 	t.ObserveBool("accepted", accepted)
 	strict := verifref.ValidJSON(orig, verifref.Relax{})
-	num := verifref.ValidJSON(orig, verifref.Relax{NumberGo: true})
 	ctrl := verifref.ValidJSON(orig, verifref.Relax{CtrlInString: true})
-	lax := verifref.ValidJSON(orig, verifref.Relax{NumberGo: true, CtrlInString: true})
+	lax := verifref.ValidJSON(orig, verifref.Relax{CtrlInString: true})
 	and, implies := verifrt.And, verifrt.Implies
-	t.Known("D3-number-forms-outside-RFC-accepted", and(accepted, !strict, num))
 	t.Known("D4-raw-control-character-in-string-accepted", and(accepted, !strict, ctrl))
 	// (D5, an embedded NUL ending the input, is repaired: no relaxation for it)
 	t.Assert("accept-only-listed-language", implies(accepted, lax))
